@@ -12,6 +12,7 @@ import itertools
 from rv.props import _c07_model as M
 
 ID = "C07"
+REPO_TESTS = "C07"   # the repository's tests also run under this property's monitors
 LEVEL = "exploration"
 RULE = ("exhaustive over nested dicts with keys {a,b}: quick = all ordered pairs of the 361 "
         "dicts of depth<=2 with leaves {0,1,{}} plus all ordered pairs of the 81 dicts of "
